@@ -96,6 +96,9 @@ pub enum ZField {
     Box(TArg),
     Pair(TArg, TArg),
     PtrBox(TArg),
+    /// `const Box<arg> f;`: an instantiation that is only ever used const-qualified
+    ConstBox(TArg),
+    ConstPair(TArg, TArg),
 }
 
 #[derive(Clone, Debug, Serialize, Deserialize, PartialEq, Eq)]
@@ -153,6 +156,8 @@ impl Zoo {
             ZField::Box(a) => (format!("Box<{} >", self.arg_c(a, ci)), String::new(), true),
             ZField::Pair(a, b) => (format!("Pair<{}, {} >", self.arg_c(a, ci), self.arg_c(b, ci)), String::new(), true),
             ZField::PtrBox(a) => (format!("Box<{} >*", self.arg_c(a, ci)), String::new(), false),
+            ZField::ConstBox(a) => (format!("const Box<{} >", self.arg_c(a, ci)), String::new(), true),
+            ZField::ConstPair(a, b) => (format!("const Pair<{}, {} >", self.arg_c(a, ci), self.arg_c(b, ci)), String::new(), true),
         }
     }
     fn bases_of(&self, ci: usize) -> Vec<usize> {
@@ -215,7 +220,9 @@ fn zoo_strategy() -> BoxedStrategy<Zoo> {
         1 => any::<u16>().prop_map(ZField::Class),
         4 => arg.clone().prop_map(ZField::Box),
         2 => (arg.clone(), arg.clone()).prop_map(|(a, b)| ZField::Pair(a, b)),
-        1 => arg.prop_map(ZField::PtrBox),
+        1 => arg.clone().prop_map(ZField::PtrBox),
+        1 => arg.clone().prop_map(ZField::ConstBox),
+        1 => (arg.clone(), arg).prop_map(|(a, b)| ZField::ConstPair(a, b)),
     ];
     let class = (proptest::collection::vec(any::<u16>(), 0..5), proptest::bool::weighted(0.5), proptest::collection::vec(field, 1..5)).prop_map(|(bases, polymorphic, fields)| ZClass { bases, polymorphic, fields });
     (proptest::collection::vec(space, 1..=3), proptest::collection::vec(class, 1..7)).prop_map(|(spaces, classes)| Zoo { spaces, classes }).boxed()
